@@ -296,6 +296,9 @@ class Interp:
         self.atoms_walked = 0
         self.stmts_walked = 0
         self._inline_stack: list = []
+        self._ret_recorders: list[dict] = []
+        self._inline_ret_consts: dict[int, dict] = {}
+        self._inline_ret_opaque: set[int] = set()
         self.inline_args: list = []
         self._refine_depth = 0
         self.inlined: set[str] = set()
@@ -383,12 +386,23 @@ class Interp:
         self.fn = g
         self.a.fn = g
         self.ctx = Ctx(handler_tokens=list(saved_ctx.handler_tokens), with_stack=list(saved_ctx.with_stack), loop_depth=0, try_stack=list(saved_ctx.try_stack), stmt_stack=list(saved_ctx.stmt_stack))
+        self._ret_recorders.append({})
         try:
             r = self.exec_block(g.node.body, dict(facts))
         finally:
             self._inline_stack.pop()
             self.inline_args.pop()
+            rec = self._ret_recorders.pop()
             self.fn, self.a.fn, self.ctx = saved_fn, saved_afn, saved_ctx
+        if rec and not r.normal and all(ks <= {True, False} for ks in rec.values()) and set(r.ret) <= set(rec):
+            # a helper that answers with `return True` / `return False` only: the facts keep the answer they were returned with, so a
+            # test on the call (`if not self._try_x(sock): continue`) sends each of them down its own edge
+            cur = self._inline_ret_consts.setdefault(id(node), {})
+            for fact, ks in rec.items():
+                cur.setdefault(fact, set()).update(ks)
+        else:
+            self._inline_ret_consts.pop(id(node), None)
+            self._inline_ret_opaque.add(id(node))
         out = Out()
         out.merge_abrupt(r)
         # the callee's returns are the caller's normal continuation
@@ -483,6 +497,12 @@ class Interp:
         out.merge_abrupt(r)
         out.ret = dict(out.ret)
         fm_merge(out.ret, r.normal)
+        if self._ret_recorders:
+            # inside a helper interpreted in place: which constant each fact is returned with (`return True` / `return False`)
+            v = st.value
+            key = v.value if isinstance(v, ast.Constant) and isinstance(v.value, bool) else "?"
+            for fact in r.normal:
+                self._ret_recorders[-1].setdefault(fact, set()).add(key)
         out.normal = {}
         return out
 
@@ -519,6 +539,15 @@ class Interp:
                     return [tok]
         cls_expr = e.func if isinstance(e, ast.Call) else e
         names = self.a.lattice.handler_classes(self.fn, cls_expr, self.a.resolve_handler_attr)
+        if not names and isinstance(e, ast.Call) and self.fn is not None:
+            # an error factory of the repository (`raise _closed_error()`, `raise cls._limit_error(data, n)`): the class named by its
+            # return annotation
+            try:
+                tg = [t for t in self.a.engine.typer.call_targets(self.fn, e, dispatch=False) if hasattr(t, "node") and not isinstance(t.node, ast.Lambda)]
+            except Exception:
+                tg = []
+            if len(tg) == 1 and getattr(tg[0].node, "returns", None) is not None:
+                names = self.a.lattice.handler_classes(tg[0], tg[0].node.returns, self.a.resolve_handler_attr)
         if names and len(names) == 1:
             if self.a.lattice.ancestry(names[0]) is not None and getattr(self.a, "precise_raise_tokens", False):
                 return [names[0]]  # the raised class itself is the token (its ancestry is known to the lattice)
@@ -660,6 +689,16 @@ class Interp:
             if is_none is not None:
                 truth = is_none if isinstance(test.ops[0], ast.Is) else not is_none
                 return (list(facts), []) if truth else ([], list(facts))
+        if id(test) in self._inline_ret_consts and id(test) not in self._inline_ret_opaque:
+            rec = self._inline_ret_consts[id(test)]
+            ts_, fs_ = [], []
+            for fact in facts:
+                ks = rec.get(fact, {True, False})
+                if True in ks:
+                    ts_.append(fact)
+                if False in ks:
+                    fs_.append(fact)
+            return ts_, fs_
         ts: list = []
         fs: list = []
         for fact in facts:
